@@ -201,6 +201,26 @@ def run_wire(ctx, prop):
             dist["metrics_quiescent_points"] = metrics_points
         stats["fidelity"] = dist
         cov.setdefault("samples", []).append({"wire_session": cases[0]["ops"][:3]} if cases else {})
+    # ---------------------------------------------------------------- persistent connections with an idle gap (C12)
+    if prop == "C12":
+        out = C.run_harness(ctx, bins["wire"], ["--server", server, "--mode", "idle", "--cases", 1 if quick else 6, "--seed", ctx.seed], timeout=2400)
+        idle_rows = [r for r in _lines(out) if r.get("mode") == "idle"]
+        for r in idle_rows:
+            ws = r["wires"]
+            inp = {"protocol": ["http", "grpc", "resp"][r["proto"]], "history": "ONE connection: 3 unit requests back to back (max_burst 2, 10 per 3 s = one token per 300 ms), 1000 ms idle, 1 more unit request",
+                   "first_three_took_ms": r.get("first3_ms"), "answers": ws}
+            if r.get("first3_ms", 0) > 150:
+                stats["idle_rounds_too_slow_to_judge"] = stats.get("idle_rounds_too_slow_to_judge", 0) + 1
+                continue
+            ok = (len(ws) == 4 and all("a" in w for w in ws) and [w["a"] for w in ws[:3]] == [True, True, False]
+                  and ws[3]["a"] is True and ws[3]["rem"] == 1 and all(w["lim"] == 2 for w in ws))
+            if not ok:
+                ctx.violations.append({"what": "C12: on a persistent %s connection the answers are not the library's for the times the requests arrive (after a 1000 ms idle gap - more than three emission intervals - "
+                                               "the bucket is full again: the fourth request must be allowed with remaining 1)" % inp["protocol"], "input": inp})
+            else:
+                n_ok += 1
+        n_eval += 4 * len(idle_rows)
+        stats["idle_connections"] = {"connections": len(idle_rows)}
     # ---------------------------------------------------------------- simultaneous burst across protocols (C09)
     if prop == "C09":
         ncases = 150 if quick else 2500
@@ -256,7 +276,9 @@ def run_wire(ctx, prop):
             pd["hostile_requests"] += len(r["prefix"])
             inp = {"hostile_prefix": r["prefix"], "probes": r["probes"], "health": r["health"]}
             bad = None
-            if not r["health"]:
+            if r.get("unresponsive"):
+                bad = "after this hostile prefix the server stopped answering: requests on every protocol time out (the limiter task is stuck or gone)"
+            elif not r["health"]:
                 bad = "GET /health is no longer answered with 200 OK"
             for p in r["probes"]:
                 pd["probes"] += 2
